@@ -152,6 +152,18 @@ func buildCatalogue() {
 	addFree("Geometry.Scan", func(b []byte) (geom.Geometry, error) { var g geom.Geometry; err := g.Scan(b); return g, err }, "wkb")
 	addFree("NullGeometry.Scan", func(b []byte) (geom.NullGeometry, error) { var g geom.NullGeometry; err := g.Scan(b); return g, err }, "wkb")
 	addFree("Geometry.UnmarshalJSON", func(b []byte) (geom.Geometry, error) { var g geom.Geometry; err := g.UnmarshalJSON(b); return g, err }, "geojson")
+	// scanning into a variable that already holds a value (a rows loop reusing
+	// one destination): earlier copies of that value must not change
+	addFree("Geometry.Scan/into-existing", func(dst geom.Geometry, b []byte) (geom.Geometry, error) { err := dst.Scan(b); return dst, err }, "G", "wkb")
+	addFree("Geometry.UnmarshalJSON/into-existing", func(dst geom.Geometry, b []byte) (geom.Geometry, error) {
+		err := dst.UnmarshalJSON(b)
+		return dst, err
+	}, "G", "geojson")
+	addFree("NullGeometry.Scan/into-existing", func(dst geom.Geometry, b []byte) (geom.NullGeometry, error) {
+		ng := geom.NullGeometry{Geometry: dst, Valid: true}
+		err := ng.Scan(b)
+		return ng, err
+	}, "G", "wkb")
 	addFree("Polygon.Scan", func(b []byte) (geom.Polygon, error) { var g geom.Polygon; err := g.Scan(b); return g, err }, "wkb")
 	addFree("LineString.UnmarshalJSON", func(b []byte) (geom.LineString, error) {
 		var g geom.LineString
@@ -422,7 +434,7 @@ func drawArg(s *vs.Stream, p *pool, kind string) []int {
 	case "twkb":
 		return []int{s.Intn(len(p.geoms), "a/g"), s.Intn(8, "a/prec"), s.Intn(8, "a/twkb"), s.Intn(2*len(p.bufs)+1, "a/shared")}
 	case "matrix", "pattern":
-		return []int{s.Intn(6, "a/mat")}
+		return []int{s.Intn(len(matrixChoices), "a/mat")}
 	case "pts", "lss", "rings", "polys":
 		n := s.Intn(4, "a/n")
 		return lat(n*6 + 1)
@@ -450,9 +462,10 @@ type execEnv struct {
 	owned  []reflect.Value // caller-owned buffers (addressable slices) to scribble afterwards
 	aborts int64
 	cbs    int64
+	visits []int // record ids passed to an R-tree callback, in order
 }
 
-var matrixChoices = []string{"FF2FF1212", "0FFFFFFF2", "212101212", "T*F**FFF*", "2FFF1FFF2", "bogus"}
+var matrixChoices = []string{"FF2FF1212", "0FFFFFFF2", "212101212", "T*F**FFF*", "2FFF1FFF2", "bogus", "T*F**FFX*", "2FFF1FFFZ", "FF2FF121Q", "0*******2", "F********", "21210121"}
 
 const (
 	siteTransform = -20
@@ -568,6 +581,7 @@ func (env *execEnv) mat(kind string, a []int, e *opEntry, pos int) reflect.Value
 		return reflect.ValueOf(func(id int) error {
 			vs.Yield(siteTreeCB)
 			env.cbs++
+			env.visits = append(env.visits, id)
 			calls++
 			if calls-1 >= k {
 				if kind == 5 {
@@ -876,6 +890,10 @@ func execOp(op *opSpec, p *pool, scribbleNow bool) (res opResult) {
 					res.Geoms = append(res.Geoms, g)
 				}
 			}
+		}
+		if len(env.visits) > 0 {
+			sb.WriteString(" ; visits")
+			sb.WriteString(fmt.Sprint(env.visits))
 		}
 		res.Digest = sb.String()
 	}()
